@@ -109,6 +109,14 @@ def c01_shapes(tier):
                                   (['-v', S(0), S(1), '-q', '\x04', S(2), '-f'], ['v=7,#0,#1', 'fv=#2', 'f=1'], 32 | 64, 1), (['-e', S(0), '--zz', '\x04', S(1), S(2)], ['c=#0', 'fv=#1,#2'], 32 | 64, 1),
                                   (['-f', '\x04', '-v', S(0)], ['v=7,#0', 'f=1'], 0, 0), (['-v', S(0), 'x', '\x04', S(1), S(2)], ['v=7,#0', 'fv=#1,#2'], 32 | 64, 1)):
         shapes.append(('hx_pa_twice', [6, (opt << 8) | fl], lab('c01/two evaluations', words), {'pa_tmpl': tmpl('ok', items, R3, words)}))
+    # spellings (short, long, abbreviated) of lines whose arguments are named in handler constraints; a flag ends the value list of
+    # a multi-value argument, the next free value goes to the free-value argument
+    for cfg, ok, bad in rules():
+        if cfg == 8:
+            for (words, slots, items) in ok[::3]:
+                shapes.append(('hx_pa', [8, 0], lab('c01/cfg8', words), {'pa_tmpl': tmpl('ok', items, slots, words)}))
+    for opt, words, items in ((64 | 32, ['-v', S(0), S(1), '-f', S(2)], ['v=7,#0,#1', 'fv=#2', 'f=1']), (64 | 32, ['-e', S(0), '--flag', S(1), S(2)], ['c=#0', 'fv=#1,#2', 'f=1']), (64 | 32, [S(0), '-e', S(1), '-f', S(2)], ['c=#1', 'fv=#0,#2', 'f=1'])):
+        shapes.append(('hx_pa', [6, opt << 8], lab('c01/multi-value then flag', words), {'pa_tmpl': tmpl('ok', items, ['r2:10:19', 'r2:20:29', 'r2:30:39'], words)}))
     # value mode 'command': the rest of the command line, joined by blanks, is the value
     for words, slots, items in ((['-x', S(0)], ['s2'], ['k=$0', 'f=0']), (['-f', '-x', S(0), S(1)], ['s2', 's1'], ['k=$0 $1', 'f=1']), (['-x', S(0), '-f', '-n', S(1)], ['s2', 'd2'], ['k=$0 -f -n $1', 'f=0', 'n=_']),
                                 (['-n', S(1), '-x', S(0), '--name=' + S(0)], ['s2', 'd2'], ['k=$0 --name=$0', 'n=#1', 's=_']), (['-f', '-x', S(0), S(0)], ['s1'], ['k=$0 $0', 'f=1'])):     # (the library supports this value mode only for a short key alone in its word)
